@@ -289,7 +289,7 @@ def run(ctx):
                 for (e, ext, idx) in o.subs:
                     if not (idx.lo >= 0 and idx.hi < ext):
                         bad.append('%s->%s: subscript %s of a table of extent %d' % (names[b], names[w], idx, ext))
-            ctx.check3(None if (undecided and not bad) else (not bad and n_sub >= 7), 'C17-window',
+            ctx.check3(None if (undecided and not bad) else (not bad and (n_sub >= 7 or T[key] is None)), 'C17-window',
                        '%s from a %s: every target weekday is reached by the right number of days, '
                        'all table subscripts in bounds' % (fname_.split('::')[-1], names[b]), f,
                        'the table search is wrong for: %s' % '; '.join(bad[:4]), construct='window:%s[%d]' % (key, b),
